@@ -35,7 +35,7 @@ theorem inv_step (s t : State) (hg : Grow s.core t.core) (hl : LogDelta H s t) (
   | same e =>
     have : deliveries t k = deliveries s k := by unfold deliveries; rw [e]
     rw [this]; exact ⟨h1, keep⟩
-  | ack p a π h e _ =>
+  | ack p a π h e _ _ _ =>
     have : deliveries t k = deliveries s k := by
       rw [deliveries_append s _ k t e]; simp
     rw [this]; exact ⟨h1, keep⟩
